@@ -112,13 +112,22 @@ def _is_cpp(n):
     return type(n).__name__.startswith("Cpp_")
 
 
-def _strip_shape(t, drop_empty_implicit=False):
+def _strip_shape(t, drop_empty_implicit=False, merge_parts=False):
     """shape without preprocessor nodes"""
     def sh(node):
         if isinstance(node, Base):
             kids = [sh(c) for c in node.children if not (isinstance(c, Base) and _is_cpp(c))]
             if drop_empty_implicit:
                 kids = [k for k in kids if not (isinstance(k, list) and len(k) == 4 and k[0] in ("Implicit_Part", "Specification_Part") and k[3] == [])]
+            if merge_parts:
+                merged = []
+                for k in kids:
+                    if (merged and isinstance(k, list) and len(k) == 4 and k[0] == "Component_Part" and isinstance(merged[-1], list)
+                            and len(merged[-1]) == 4 and merged[-1][0] == "Component_Part"):
+                        merged[-1] = [k[0], merged[-1][1], merged[-1][2], merged[-1][3] + k[3]]
+                    else:
+                        merged.append(k)
+                kids = merged
             it = getattr(node, "item", None)
             lab = getattr(it, "label", None) if it is not None else None
             nm = getattr(it, "name", None) if it is not None else None
@@ -202,6 +211,8 @@ def cpp_prog(ctx):
     exact = C.same_shape(_strip_shape(r0[1]), _strip_shape(t))
     if not ctx.holds(exact) and ctx.holds(C.same_shape(_strip_shape(r0[1], True), _strip_shape(t, True))):
         ctx.check(exact, "preprocessor directives change the parse of the Fortran [directive wrapped in extra Specification_Part / Implicit_Part nodes]" + tagsemi)
+    elif not ctx.holds(exact) and ctx.holds(C.same_shape(_strip_shape(r0[1], False, True), _strip_shape(t, False, True))):
+        ctx.check(exact, "preprocessor directives change the parse of the Fortran [Component_Part of a derived type split in two at the directive]" + tagsemi)
     else:
         ctx.check(exact, "preprocessor directives change the parse of the Fortran" + tagsemi)
     nodes = _top_cpp(t)
